@@ -780,7 +780,64 @@ struct FactVisitor : RecursiveASTVisitor<FactVisitor> {
     }
     s += ",\"l\":" + std::to_string(X.line(E->getExprLoc())) + lockField(E->getExprLoc()) + "}";
     emit(s);
+    if (FD) memop(E, FD);
     return true;
+  }
+  // ---- element-size agreement facts (memcpy family, casted allocations)
+  void sizeofTypes(const Expr *E, std::vector<std::string> &out) {
+    if (!E) return;
+    E = E->IgnoreParenImpCasts();
+    if (auto *U = dyn_cast<UnaryExprOrTypeTraitExpr>(E)) {
+      if (U->getKind() == UETT_SizeOf) {
+        QualType T = U->isArgumentType() ? U->getArgumentType() : U->getArgumentExpr()->getType();
+        out.push_back(X.ty(T.getCanonicalType().getUnqualifiedType()));
+      }
+      return;
+    }
+    for (const Stmt *C : E->children())
+      if (auto *CE = dyn_cast_or_null<Expr>(C)) sizeofTypes(CE, out);
+  }
+  std::string pointeeOf(const Expr *E) {
+    // the pointer type the programmer wrote, before conversion to void*
+    E = E->IgnoreParenImpCasts();
+    while (auto *C = dyn_cast<ExplicitCastExpr>(E)) {
+      if (C->getType()->isVoidPointerType()) E = C->getSubExpr()->IgnoreParenImpCasts(); else break;
+    }
+    QualType T = E->getType();
+    if (T->isArrayType()) return X.ty(X.C.getAsArrayType(T)->getElementType().getCanonicalType().getUnqualifiedType());
+    if (T->isPointerType()) return X.ty(T->getPointeeType().getCanonicalType().getUnqualifiedType());
+    return "?";
+  }
+  bool VisitExplicitCastExpr(ExplicitCastExpr *E) {
+    if (!CurEmit) return true;
+    if (!E->getType()->isPointerType()) return true;
+    const Expr *S = E->getSubExpr()->IgnoreParenImpCasts();
+    auto *CE = dyn_cast<CallExpr>(S);
+    if (!CE) return true;
+    const FunctionDecl *FD = CE->getDirectCallee();
+    if (!FD || FD->getNameAsString() != "allocate" || CE->getNumArgs() < 1) return true;
+    std::vector<std::string> so;
+    sizeofTypes(CE->getArg(0), so);
+    std::string s = "{\"k\":\"alloccast\",\"in\":" + std::to_string(CurId) + ",\"to\":" + js(X.ty(E->getType()->getPointeeType().getCanonicalType().getUnqualifiedType())) + ",\"sizeofs\":[";
+    for (size_t i = 0; i < so.size(); i++) { if (i) s += ","; s += js(so[i]); }
+    Sx sx(X, Cur);
+    s += "],\"arg\":" + sx.ex(CE->getArg(0), 8) + ",\"l\":" + std::to_string(X.line(E->getExprLoc())) + "}";
+    emit(s);
+    return true;
+  }
+  void memop(CallExpr *E, const FunctionDecl *FD) {
+    std::string n = FD->getNameAsString();
+    if (n != "memcpy" && n != "memmove" && n != "memset" && n != "memcmp") return;
+    if (E->getNumArgs() < 3) return;
+    std::vector<std::string> so;
+    sizeofTypes(E->getArg(2), so);
+    Sx sx(X, Cur);
+    std::string s = "{\"k\":\"memop\",\"in\":" + std::to_string(CurId) + ",\"fn\":" + js(n) + ",\"dst\":" + js(pointeeOf(E->getArg(0)));
+    if (n != "memset") s += ",\"src\":" + js(pointeeOf(E->getArg(1)));
+    s += ",\"sizeofs\":[";
+    for (size_t i = 0; i < so.size(); i++) { if (i) s += ","; s += js(so[i]); }
+    s += "],\"size\":" + sx.ex(E->getArg(2), 8) + ",\"l\":" + std::to_string(X.line(E->getExprLoc())) + "}";
+    emit(s);
   }
   bool VisitCXXConstructExpr(CXXConstructExpr *E) {
     if (!CurEmit) return true;
